@@ -515,10 +515,47 @@ func run(args []string) error {
 		o.Count(fmt.Sprint("crash", c.commit, c.npages, c.j, c.mw), c.data != nil)
 	}
 	o.Def("cases_crash", "Z * Z * Z * meta_write * Z * bool * bool * bool * bool * Z", crashItems)
-	o.Side["rule"] = "one scripted follower life-cycle (create db, genesis, pool updates incl. pool txns that a later block makes invalid, block acceptances, periodic pool clean-ups, a txn left pending) with an image at every commit boundary reported by the dbutil hook; crash states = every boundary + inside every commit prefixes of the dirty-page writes (quick: 0, 1, half, all; thorough: every prefix) with the meta page missing or torn; each restarted on the real code (forced CheckDatabase under a 20 s watchdog, visor.New+Init), then everything re-delivered and the state compared after the pool clean-up (RemoveInvalidUnconfirmed) on both nodes; non-trivial = image exists on disk; distinct by (commit, pages written, meta)"
+	// ---- restart while the stopped process still holds the file lock for a moment:
+	// the node's own OpenDB must wait for the lock (bounded: 5 s) and then open
+	var lockItems []string
+	var lockJSON []map[string]interface{}
+	if len(images) > 0 {
+		for k, hold := range []int{60, 350, 900} {
+			path := w.PathOf(fmt.Sprintf("lock%d", k))
+			if err := os.WriteFile(path, images[len(images)-1].data, 0600); err != nil {
+				return err
+			}
+			holder, err := bolt.Open(path, 0600, &bolt.Options{Timeout: 2 * time.Second})
+			if err != nil {
+				return fmt.Errorf("lock holder: %v", err)
+			}
+			go func(d int) {
+				time.Sleep(time.Duration(d) * time.Millisecond)
+				holder.Close()
+			}(hold)
+			t0 := time.Now()
+			db, oerr := visor.OpenDB(path, false)
+			ms := time.Since(t0).Milliseconds()
+			opened := oerr == nil
+			if opened {
+				db.Close()
+			}
+			es := ""
+			if oerr != nil {
+				es = oerr.Error()
+			}
+			time.Sleep(time.Duration(hold) * time.Millisecond) // let the holder finish before the file goes
+			os.Remove(path)
+			lockItems = append(lockItems, Tuple(fmt.Sprint(hold), B(opened), fmt.Sprint(ms)))
+			lockJSON = append(lockJSON, map[string]interface{}{"lock_held_ms": hold, "opened": opened, "waited_ms": ms, "err": es})
+			hist.Add("lock-held-restart")
+		}
+	}
+	o.Def("cases_lock", "Z * bool * Z", lockItems)
+	o.Side["rule"] = "one scripted follower life-cycle (create db, genesis, pool updates incl. pool txns that a later block makes invalid, block acceptances, periodic pool clean-ups, a txn left pending) with an image at every commit boundary reported by the dbutil hook; crash states = every boundary + inside every commit prefixes of the dirty-page writes (quick: 0, 1, half, all; thorough: every prefix) with the meta page missing or torn; each restarted on the real code (forced CheckDatabase under a 20 s watchdog, visor.New+Init), then everything re-delivered and the state compared after the pool clean-up (RemoveInvalidUnconfirmed) on both nodes; restart while the file lock is still held for 60/350/900 ms (visor.OpenDB must wait and open, within 5 s); non-trivial = image exists on disk; distinct by (commit, pages written, meta)"
 	o.Side["distribution"] = hist.Sorted()
 	o.Side["samples"] = crashJSON[:min(len(crashJSON), 8)]
-	o.Side["cases"] = map[string]interface{}{"crash": crashJSON, "abs": absJSON}
+	o.Side["cases"] = map[string]interface{}{"crash": crashJSON, "abs": absJSON, "lock": lockJSON}
 	o.Side["blocks"] = nBlocks
 	o.Side["commit_boundaries"] = len(images)
 	return o.Write(f.Out, f.JSON)
